@@ -2078,6 +2078,40 @@ pub fn suite_rfc_messages(out: &mut Out, tier: &str, rng: &mut Rng) {
             }
         }
     }
+    // coincidences: the same AVP twice (equal values), octet strings that are themselves AVP records or whole
+    // messages, 16-bit fields equal to the AVP / message length or the AVP count, data payloads that look like
+    // control messages or PPP frames
+    for rep in 0..counts(tier, 40, 1500) {
+        let ki = rng.below(KINDS.len() as u64) as usize;
+        let a = gen_avp_kind(rng, ki, 8);
+        let inner_avp = enc_avp(&gen_avp(rng, 6));
+        let inner_msg = enc_control(&gen_control(rng, 2, 5));
+        let octet_kind = *rng.pick(&["HostName", "Challenge", "ProxyAuthenName", "ProxyAuthenChallenge", "ProxyAuthenResponse", "PrivateGroupId",
+                                     "InitialReceivedLcpConfReq", "LastSentLcpConfReq", "LastReceivedLcpConfReq"]);
+        let nested = json!({"k": octet_kind, "f": [bytes_json(if rep % 2 == 0 { &inner_avp } else { &inner_msg })]});
+        let mut avps = vec![gen_message_type(rng), a.clone(), a.clone(), nested];
+        // a 16-bit field holding a length / count of this very message
+        let count = avps.len() + 1;
+        let body_len: usize = avps.iter().map(|x| enc_avp(x).len()).sum::<usize>() + 8;
+        let v16 = *rng.pick(&[8usize, count, 12 + body_len, body_len, 6]);
+        let k16 = *rng.pick(&["AssignedTunnelId", "AssignedSessionId", "ReceiveWindowSize", "FirmwareRevision"]);
+        avps.push(json!({"k": k16, "f": [v16]}));
+        let m = json!({"k": "Control", "length": 0, "tunnel_id": v16, "session_id": count, "ns": body_len % 65536, "nr": v16, "avps": avps});
+        out.emit(json!({"op": "roundtrip", "kind": "msg", "v": m}));
+        out.emit(json!({"op": "chain", "in": bytes_json(&enc_control(&m)), "opts": [true, true, true]}));
+        // data messages carrying a control message, a PPP / LCP frame, or octets that look like a header
+        let payload = match rep % 4 {
+            0 => inner_msg.clone(),
+            1 => { let mut p = vec![0xffu8, 0x03, 0xc0, 0x21]; p.extend(gen_lcp(rng, false)); p }
+            2 => { let mut p = vec![0x13u8, 0x20, 0, 12, 0, 0, 0, 0, 0, 0, 0, 0]; p.extend(rng.rbytes(0, 6)); p }
+            _ => vec![0u8; 1 + (rep % 7) as usize],
+        };
+        let has_s = rep % 3 == 0;
+        let total = 2 + 2 + 4 + if has_s { 4 } else { 0 } + payload.len();
+        let d = json!({"k": "Data", "prio": rep % 5 == 0, "length": [total], "tunnel_id": total, "session_id": payload.len(),
+                       "ns_nr": if has_s { json!([[total, payload.len()]]) } else { json!([]) }, "offset": [], "data": bytes_json(&payload)});
+        out.emit(json!({"op": "roundtrip", "kind": "msg", "v": d}));
+    }
     // LCP-shaped payloads alone, in the three kinds that carry them
     for _ in 0..counts(tier, 30, 1000) {
         for k in ["InitialReceivedLcpConfReq", "LastSentLcpConfReq", "LastReceivedLcpConfReq", "ProxyAuthenChallenge"] {
